@@ -244,7 +244,9 @@ func (c *Ctx) evalSpecFn(fn *ssa.Function, args [][]Term, st *State, old HeapSna
 	entry := st.clone()
 	entry.Reach = TTrue
 	entry.Defers = nil
+	c.specDepth++
 	sub.run(entry)
+	c.specDepth--
 	res := sub.specResult(fn)
 	c.flushFacts(st)
 	return res
